@@ -194,18 +194,28 @@ impl Monitor {
         }
         ctx.count("routes.interference");
         let pick = rng.below(n);
+        // the judged call takes the document as JSONB or (finite documents, functions that take
+        // text) as JSON text
+        let as_text = t.all_finite() && rng.bool() && !(pick < all1.len() && pick >= self.unary.len());
+        let xt;
+        let xin: &[u8] = if as_text {
+            xt = refjson::compact(t);
+            &xt
+        } else {
+            xb
+        };
         let call = |ctx_args: &Args| -> Result<String, crate::monitor::Panicked> {
             if pick < all1.len() {
-                guard(|| (all1[pick].1)(xb, ctx_args))
+                guard(|| (all1[pick].1)(xin, ctx_args))
             } else {
-                guard(|| (self.binary[pick - all1.len()].1)(xb, ub, ctx_args))
+                guard(|| (self.binary[pick - all1.len()].1)(xin, ub, ctx_args))
             }
         };
         let name = if pick < all1.len() { all1[pick].0 } else { self.binary[pick - all1.len()].0 };
         let before = call(args);
         let what = self.hostile_calls(xb, ub, t, args, rng);
         let after = call(args);
-        history_obs(ctx, name, &before, &after, &|| format!("same call before and after [{}] ; doc={} other={} {}", what, hex(xb), hex(ub), show_args(args)));
+        history_obs(ctx, name, &before, &after, &|| format!("same call before and after [{}] ; doc={} other={} {}", what, show_bytes(xin), hex(ub), show_args(args)));
     }
 
     /// calls that end early: every outcome is ignored, panics included (other workloads judge them)
@@ -227,7 +237,7 @@ impl Monitor {
                     s.extend_from_slice(*rng.pick(&[&b"\\q\"]"[..], b"\\u12G4\"]", b"\\", b"\\ud800\\u12\"]"]));
                     s
                 }
-                3 => rng.pick(&[&b""[..], b"\x80", b"\x40\x00", b"\x20\x00\x00\x00", b"\x80\x00\x00\x01", b"{\"a\":", b"[1,", b"\"abc"]).to_vec(),
+                3 => rng.pick(&[&b""[..], b"\x80", b"\x40\x00", b"\x20\x00\x00\x00", b"\x80\x00\x00\x01", b"{\"a\":", b"[1,", b"\"abc", b"[1,1e999]", b"{\"k\":-1e999}"]).to_vec(),
                 _ => xb[..xb.len().min(4 + rng.below(5))].to_vec(),
             };
             // (damaged encodings are *cut*, never altered in place: the byte-level accessors trust
@@ -307,7 +317,9 @@ pub fn plain_args(t: &Tree, rng: &mut Rng) -> Args {
             _ => gen::key(rng),
         },
         keypath: gen::keypath_for(t, rng),
-        keys: {
+        keys: if rng.chance(1, 8) {
+            Vec::new()
+        } else {
             let mut k = vec![gen::key(rng)];
             if let Tree::Obj(v) = t {
                 k.extend(v.iter().take(2).map(|(k, _)| k.clone()));
